@@ -310,7 +310,7 @@ fn spawn_json(exe: &std::path::Path, args: &[String]) -> (Option<J>, String) {
 
 /// The schedule part of the C11 run. Returns Err(2) on a machinery failure.
 pub fn run_part(run: &mut Run, tier: Tier) -> Result<(), i32> {
-    let exe = std::env::current_exe().expect("exe");
+    let exe = crate::report::worker_exe();
     // reference: each call alone in a pristine process
     let refs: Vec<String> = par_map(&(0..CALLS.len()).collect::<Vec<_>>(), || (), |_, k| {
         spawn_json(&exe, &["ref".into(), k.to_string()]).0.and_then(|v| v["ref"].as_str().map(|s| s.to_string())).unwrap_or_else(|| "<reference process failed>".into())
@@ -436,7 +436,7 @@ pub fn run_part(run: &mut Run, tier: Tier) -> Result<(), i32> {
 }
 
 pub fn replay(v: &J) -> i32 {
-    let exe = std::env::current_exe().expect("exe");
+    let exe = crate::report::worker_exe();
     let si = v["scenario"].as_u64().unwrap_or(0);
     let tier = v["tier"].as_str().unwrap_or("quick").to_string();
     let mut args: Vec<String> = vec!["replay".into(), si.to_string(), tier, v["granularity"].as_str().unwrap_or("coarse").to_string()];
